@@ -551,9 +551,18 @@ global_asm!(
     "svc #0",
 );
 
+/// Stand-in for the thread pointer register when a checker runs the code without real threads
+#[cfg(feature = "verif-hooks")]
+pub static VERIF_TLS_REGISTER: core::sync::atomic::AtomicUsize = core::sync::atomic::AtomicUsize::new(0);
+
 #[inline]
 #[must_use]
 fn get_tls_ptr() -> *mut ThreadLocalStorage {
+    #[cfg(feature = "verif-hooks")]
+    {
+        return VERIF_TLS_REGISTER.load(Ordering::Relaxed) as _;
+    }
+    #[cfg_attr(feature = "verif-hooks", allow(unreachable_code))]
     let mut output: usize;
     #[cfg(target_arch = "x86_64")]
     unsafe {
@@ -567,7 +576,7 @@ fn get_tls_ptr() -> *mut ThreadLocalStorage {
 }
 
 /// Panic handler
-#[panic_handler]
+#[cfg_attr(not(feature = "verif-hooks"), panic_handler)]
 pub fn on_panic(info: &core::panic::PanicInfo) -> ! {
     let tls = get_tls_ptr();
     unsafe {
@@ -594,7 +603,14 @@ pub fn on_panic(info: &core::panic::PanicInfo) -> ! {
             // so it needs to be done in asm.
             // With the stack_ptr and stack_len in rdi/x0 and rsi/x1, respectively we can call mmap then
             // exit the thread
-            #[cfg(target_arch = "x86_64")]
+            #[cfg(feature = "verif-hooks")]
+            {
+                // Same two system calls as the asm below, made through `sc` so that a checker can observe them
+                sc::syscall!(MUNMAP, map_ptr, map_len);
+                sc::syscall!(EXIT, 0);
+                unreachable!();
+            }
+            #[cfg(all(target_arch = "x86_64", not(feature = "verif-hooks")))]
             core::arch::asm!(
             // Call munmap, all args are provided in this macro call.
             "syscall",
@@ -611,7 +627,7 @@ pub fn on_panic(info: &core::panic::PanicInfo) -> ! {
             in("rsi") map_len,
             options(nostack, noreturn)
             );
-            #[cfg(target_arch = "aarch64")]
+            #[cfg(all(target_arch = "aarch64", not(feature = "verif-hooks")))]
             core::arch::asm!(
             // Make munmap syscall, unmap stack
             "svc #0",
